@@ -52,6 +52,7 @@ type HarnessStats struct {
 	Steps       int64
 	Rewrites, Audits, ByModel, Folded int
 	AuditFail   []string
+	MonitorChecks int
 	Transitions int
 	SymPaths    int
 	Unsupported map[string]int
@@ -257,6 +258,7 @@ func (sh *Shared) merge(st *HarnessStats, ex *Exec, reason string, prefixLen int
 	st.Audits += r.audits
 	st.ByModel += r.byModel
 	st.Folded += r.folded
+	st.MonitorChecks += r.monitorChecks
 	st.AuditFail = append(st.AuditFail, r.auditFail...)
 	st.Transitions += len(ex.trace) - prefixLen
 	if prefixLen > 0 {
